@@ -79,6 +79,13 @@ Lemma lib_bundle_okb : forallb (fun k => match find_class (wclasses lib) k with
                                          end) lib_bundle_ids = true.
 Proof. vm_compute. reflexivity. Qed.
 
+(* ... and over the wider sets: members may be of any class of lib_parse_idsw (incl. MarkingDefinition, 2.1 Indicator) *)
+Lemma lib_bundle_okbw : forallb (fun k => match find_class (wclasses lib) k with
+                                          | Some c => bundle_ok variant_repaired lib lib_proved_idsw c
+                                          | None => false
+                                          end) lib_bundle_ids = true.
+Proof. vm_compute. reflexivity. Qed.
+
 (* ObservedData in its 2.1 form (no `objects` member): Proofs/C01Observed.v *)
 Definition lib_observed_ids : list ustring :=
   Eval vm_compute in filter (fun k => match find_class (wclasses lib) k with
